@@ -2795,6 +2795,13 @@ func (db *DB) Import(ctx context.Context, r io.Reader) error {
 	}
 	defer guard.Unlock()
 
+	// Read & convert the whole input first so that an invalid or truncated
+	// image is rejected before the journal or WAL are touched.
+	pos, err := db.importToLTX(ctx, r)
+	if err != nil {
+		return err
+	}
+
 	// Invalidate journal, if one exists.
 	if err := db.invalidateJournal(JournalModePersist); err != nil {
 		return fmt.Errorf("invalidate journal: %w", err)
@@ -2805,11 +2812,6 @@ func (db *DB) Import(ctx context.Context, r io.Reader) error {
 		if err := db.TruncateWAL(ctx, 0); err != nil {
 			return fmt.Errorf("truncate wal: %w", err)
 		}
-	}
-
-	pos, err := db.importToLTX(ctx, r)
-	if err != nil {
-		return err
 	}
 
 	return db.ApplyLTXNoLock(db.LTXPath(pos.TXID, pos.TXID), true)
